@@ -16,10 +16,15 @@ package main
 
 import (
 	"fmt"
+	"os"
+	"runtime/pprof"
 	"strings"
+	"syscall"
+	"time"
 
 	"verif/internal/ev"
 	"verif/internal/opdrv"
+	"verif/internal/sched"
 	"verif/internal/vstore"
 )
 
@@ -30,6 +35,15 @@ var sampleKinds = map[string]bool{
 	"success": true, "refused:wrong-secret": true, "refused:grant-unregistered": true, "refused:unknown-client": true,
 	"refused:wrong-kind-secret": true, "refused:wrong-kind-assertion": true, "refused:bad-assertion": true,
 	"refused:grant-disabled": true, "refused:malformed-credential": true, "open:refused": true,
+}
+
+// cpuSeconds is the processor time the process has used so far (user + system).
+func cpuSeconds() float64 {
+	var ru syscall.Rusage
+	if syscall.Getrusage(syscall.RUSAGE_SELF, &ru) != nil {
+		return 0
+	}
+	return float64(ru.Utime.Sec+ru.Stime.Sec) + float64(ru.Utime.Usec+ru.Stime.Usec)/1e6
 }
 
 func trunc(s string, n int) string {
@@ -161,6 +175,22 @@ func execute(run *ev.Run, s *spec, router int, pl pool) {
 		return
 	}
 
+	// The endpoints act for a client only after IT has authenticated: whatever the request makes the storage do on
+	// behalf of a client must be on behalf of the one client the request names and authenticates.
+	if singleIdentity(s, p) {
+		if e := foreignAct(journal, id); e != nil {
+			other, _ := actsFor(*e)
+			witness["storage_calls_of_the_request"] = briefJournal(journal)
+			run.Count("outcome", "acted-for-other-client")
+			run.Violation("C05:"+cell+":acted-for-other-client", int64(s.Idx), fmt.Sprintf("%s request naming and authenticating only client %q made the storage call %s on behalf of client %q (presentation %s)", cell, id, e.Method, other, presNames[s.Pres]), witness)
+			return
+		}
+		run.Count("acts_for", cell+" -> "+actsSummary(journal, id))
+	}
+	if !isTokenOp(s.Op) {
+		run.Count("stray_grant_type", strayClass(s))
+	}
+
 	run.Count("placement:grant_type", s.GTPlaceStr)
 	run.Count("placement:credentials", s.CredStr)
 	run.Count("placement:parameters", s.ParamStr)
@@ -280,7 +310,10 @@ func execute(run *ev.Run, s *spec, router int, pl pool) {
 		if s.CredPlace == placeQuery && (p.rightSecret || p.validAssertion) {
 			run.Observed("ok-with-credentials-in-query-only:" + rn)
 		}
-		if (p.canonical || s.Auth == authNone) && !s.gtDiffers() && s.OddAuth == "" {
+		if s.Stray != "" {
+			run.Observed("ok-with-stray-grant_type:" + cell)
+		}
+		if (p.canonical || s.Auth == authNone) && !s.gtDiffers() && s.OddAuth == "" && s.Stray == "" {
 			run.Observed("ok:" + cell)
 			run.Count("positive_cells", cell+":"+authNames[s.Auth])
 		}
@@ -423,6 +456,7 @@ func runCase(run *ev.Run, i int, pl pool) {
 
 func main() {
 	run := ev.Start("C05", "exploration")
+	sched.Install() // the library's spans, the storage calls and the client getters become yield points (overlap part)
 	run.SetRule(fmt.Sprintf("case index i enumerates the core product endpoint/grant(%d) x credential presentation(%d) x registered auth method(%d) x grant-list shape(%d) = %d cells cyclically; provider flags (AuthMethodPost, AuthMethodPrivateKeyJWT, GrantTypeRefreshToken), storage capability subset, application type, dual credential material, id/secret alphabets, token kinds, and the placement of grant_type (body / URL query only / both equal / two different grants in query and body), of the client credentials and of the grant parameters (body / query / both / secret differing) are drawn per case; when grant_type names two grants the grant obligations are judged by the grant actually served (storage journal); every 2xx device authorization is checked to be stored for the acting client; the presentations include credentials of BOTH kinds in one request (registered secret via Basic / form next to a worthless assertion, wrong or right secret next to a valid assertion) for clients whose record holds a secret and a key; every must-refuse request that a healthy storage saw properly refused is sent again once per (storage call j of that request, fault kind) with exactly that call failing (fault sweep: plain error, wrapped context.DeadlineExceeded, oidc server_error) and must be refused each time; one request in six additionally meets a fault at a random call; each case runs on both routers after minting valid grant material through the real flows; distinct = distinct vectors (router, cell, presentation, auth method, target grant registered/disabled, app type, dual, post/pkjwt flags, id flavour, secret flavour) whose request was answered and judged",
 		numOps, numPres, numAuth, numGrantKinds, coreCells))
 	run.Assume(
@@ -456,19 +490,54 @@ func main() {
 			mand = append(mand, "fault-sweep:"+rn+":"+r)
 		}
 	}
+	// overlap part: every (router, cell) was judged with another client's request served in between, and on every cell
+	// whose requests make the storage act for the client another client was served between the parked request's
+	// authentication and its action
+	for _, rn := range opdrv.RouterNames {
+		for _, o := range ovOps {
+			mand = append(mand, "overlap:judged:"+rn+":"+opNames[o], "overlap:another-client-served-between-authentication-and-action:"+rn+":"+opNames[o])
+		}
+		for _, o := range []int{opIntrospect, opRevoke, opDevAuth} {
+			mand = append(mand, "overlap:stray-grant_type:"+rn+":"+opNames[o], "ok-with-stray-grant_type:"+rn+":"+opNames[o])
+		}
+		mand = append(mand, "overlap:parked-at-every-point:"+rn, "overlap:must-refuse-request-parked-while-a-conforming-one-was-served:"+rn,
+			"overlap:conforming-request-parked-while-a-must-refuse-one-was-answered:"+rn)
+	}
 	n := run.N(10*coreCells, 80*coreCells)
+	nOv := run.N(ovProduct, 10*ovProduct)
 	if rc := run.ReplayCase(); rc >= 0 {
 		// a replay runs one case (on both routers, in fresh worlds); the coverage obligations do not apply to it
-		runCase(run, int(rc), pool{})
+		if rc >= ovBase {
+			overlapPart(run, int(rc-ovBase), int(rc-ovBase)+1, make([]pool, 64))
+		} else {
+			runCase(run, int(rc), pool{})
+		}
 		run.Finish()
 	}
 	run.Mandatory(mand...)
 	pools := make([]pool, 64)
+	t0, c0 := time.Now(), cpuSeconds()
+	if os.Getenv("C05_DEV_OVERLAP_ONLY") != "" {
+		n = 0
+		f, _ := os.Create("/tmp/c05dev/cpu.prof")
+		pprof.StartCPUProfile(f)
+		defer pprof.StopCPUProfile()
+	}
 	ev.Parallel(n, 0, func(worker int, i int) {
 		if pools[worker] == nil {
 			pools[worker] = pool{}
 		}
 		runCase(run, i, pools[worker])
 	})
+	// the overlap part runs after the sequential one (while a goroutine is registered with sched, every yield point of
+	// every goroutine pays for a look-up), in worlds of its own
+	ovPools := make([]pool, 64)
+	t1, c1 := time.Now(), cpuSeconds()
+	overlapPart(run, 0, nOv, ovPools)
+	pprof.StopCPUProfile()
+	run.Extra("yield_points_passed", sched.Points())
+	// (evidence only: nothing is decided by a clock)
+	run.Extra("wall_s_by_part", map[string]float64{"sequential+fault-sweep": t1.Sub(t0).Seconds(), "overlap": time.Since(t1).Seconds()})
+	run.Extra("cpu_s_by_part", map[string]float64{"sequential+fault-sweep": c1 - c0, "overlap": cpuSeconds() - c1})
 	run.Finish()
 }
